@@ -203,6 +203,13 @@ def do_step(ctx, w, rng, mode):
             sizes = [len(r) for r in donor.residues]
             flat = [hg._gro_obs(ag) for r in donor.residues for ag in r]
             toks = f"molwith {i} " + hg.residues_tokens(flat, sizes)
+            # only donors / receivers whose coordinate side still agrees with the topology (earlier label
+            # assignments through residue views can leave a molecule that raises on every access: which
+            # exception class copy() raises there is not the subject of this property)
+            for obj in (o, donor):
+                ob = hg.observe(obj)
+                if ob[0] != "M" or any((g[1], g[2]) != (t[1], t[0]) for g, t in ob[2]):
+                    toks = None
         except Exception:   # noqa: BLE001  (donor in an inconsistent state)
             toks = None
         if toks is not None:
